@@ -27,7 +27,7 @@ std::string strf(const char *fmt, ...)
 }
 
 static const size_t PG = 4096;
-static const size_t RUN_BUDGET = 160u << 20; // per run, fixed so that exhaustion is a deterministic function of the plan
+static const size_t RUN_BUDGET = 192u << 20; // per run, fixed so that exhaustion is a deterministic function of the plan
 
 void fill_garbage(uint8_t *p, size_t n, uint64_t seed)
 {
@@ -49,22 +49,21 @@ void fill_garbage(uint8_t *p, size_t n, uint64_t seed)
 void Arena::init(size_t bytes)
 {
         size = bytes;
-        base = (uint8_t *) mmap(0, size, PROT_NONE, MAP_PRIVATE | MAP_ANONYMOUS | MAP_NORESERVE, -1, 0);
-        if (base == MAP_FAILED) {
-                perror("arena mmap");
+        // fixed base: buffer addresses are then a function of the plan alone (address-dependent behaviour of the
+        // code under test replays exactly instead of showing up as unexplained nondeterminism)
+        void *want = (void *) 0x3f0000000000ULL;
+        base = (uint8_t *) mmap(want, size, PROT_NONE, MAP_PRIVATE | MAP_ANONYMOUS | MAP_NORESERVE | MAP_FIXED_NOREPLACE, -1, 0);
+        if (base == MAP_FAILED || base != want) {
+                perror("arena mmap at fixed base");
                 exit(2);
         }
         pos = 0;
 }
 
-void Arena::run_begin()
+void Arena::run_begin(size_t skip_pages)
 {
         run_end();
-        // wrap only between runs; pages stay resident (no refault cost), stale mappings stay PROT_NONE
-        if (pos + RUN_BUDGET + 4 * PG > size)
-                pos = 0;
-        if (const char *sk = getenv("SIM_ARENA_SKIP"))
-                pos += (size_t) atol(sk) * PG;
+        pos = (skip_pages % 4096) * PG; // every run starts from the arena base plus a plan-chosen displacement
         run_start = pos;
 }
 
